@@ -55,14 +55,43 @@ def r1_checkers(ctx):
     qn = "verde.coordinates._check_geographic_region"
     ps = ctx.paths(qn)
     r = [p for p in ps if p.exit == "raise"]
-    def has_bounds(c, lo, hi, idx):
-        txt = [x for x in walk(c) if x[0] == "cmp"]
-        gt = any(x[1] == ">" and x[3] == const(hi) for x in txt)
-        lt = any(x[1] == "<" and x[3] == const(lo) for x in txt)
-        vars_ok = all(any(y == Q.sub(REG, i) for y in walk(c)) for i in idx)
-        return gt and lt and vars_ok
-    ctx.check("R1", qn + "|raises|longitude-range", True if any(p.conds and has_bounds(p.conds[-1][0], -180, 360, (0, 1)) for p in r) else False, "W or E outside [-180, 360] raises", bad="the longitude range test is missing or uses other limits", fn=qn)
-    ctx.check("R1", qn + "|raises|latitude-range", True if any(p.conds and has_bounds(p.conds[-1][0], -90, 90, (2, 3)) for p in r) else False, "S or N outside [-90, 90] raises", bad="the latitude range test is missing or uses other limits", fn=qn)
+    def atoms(c, out):
+        """the disjuncts of a raising condition as (bound index, op, limit); returns False if some disjunct is not of that form"""
+        if c[0] == "boolop" and c[1] == "Or":
+            return all([atoms(x, out) for x in c[2]])
+        if c[0] == "call" and callee(c) in ("numpy.any", "builtins.any") and len(c[2]) == 1:
+            return atoms(c[2][0], out)
+        if c[0] == "binop" and c[1] == "|":
+            return all([atoms(c[2], out), atoms(c[3], out)])
+        if c[0] == "cmp" and c[1] in ("<", "<=", ">", ">=") and is_const(c[3]):
+            left = Q.unwrap(c[2])
+            items = left[1] if left[0] in ("list", "tuple") else (left,)
+            idx = [x[2][1] for x in items if x[0] == "sub" and x[1] == REG and is_const(x[2])]
+            if len(idx) == len(items) and idx:
+                out.update((i, c[1], c[3][1]) for i in idx)
+                return True
+        return False
+
+    def bounds_verdict(lo, hi, idx):
+        got, clean = set(), True
+        for p in r:
+            if p.conds and p.conds[-1][1]:
+                mine = set()
+                ok_form = atoms(p.conds[-1][0], mine)
+                if any(i in idx for i, _o, _l in mine):
+                    got |= mine
+                    clean = clean and ok_form
+        need = {(i, ">", hi) for i in idx} | {(i, "<", lo) for i in idx}
+        if need <= got:
+            return True, ""
+        if got and clean:
+            names = "WESN"
+            return False, "missing tests: %s" % ", ".join("%s %s %s" % (names[i], o, l) for i, o, l in sorted(need - got))
+        return (None if got else False), "the range test was not found"
+    v_lon, why_lon = bounds_verdict(-180, 360, (0, 1))
+    ctx.check("R1", qn + "|raises|longitude-range", v_lon, "W < -180, W > 360, E < -180 and E > 360 each raise", bad="the longitude range test does not reject every bound outside [-180, 360]: " + why_lon, fn=qn)
+    v_lat, why_lat = bounds_verdict(-90, 90, (2, 3))
+    ctx.check("R1", qn + "|raises|latitude-range", v_lat, "S or N outside [-90, 90] raises", bad="the latitude range test does not reject every bound outside [-90, 90]: " + why_lat, fn=qn)
     wide = any(p.conds and p.conds[-1][0][0] == "cmp" and p.conds[-1][0][1] == ">" and p.conds[-1][0][3] == const(360) and p.conds[-1][0][2][0] == "call" and callee(p.conds[-1][0][2]) == "builtins.abs" for p in r)
     ctx.check("R1", qn + "|raises|wider-than-360", True if wide else False, "|E - W| > 360 raises", bad="regions wider than 360 degrees are accepted", fn=qn)
     qn = "verde.coordinates._check_geographic_coordinates"
@@ -118,7 +147,22 @@ def r2_r3_r4(ctx):
             try:
                 forms["lon"] = Builder(sp).nf(cs[0].data[2], {Q.sub(CO, 0): x})
             except Undecided as e:
-                ctx.add("R3", "%s|same-convention|%s" % (qn, tag), "UNDECIDED", str(e), fn=qn)
+                # not a normal-form term (np.where, ...): compare it with the expected transform cell by cell over [-180, 360]
+                # (engine H: on each cell every `% 360` is a constant shift and every test has a definite value)
+                want_t = ("binop", "%", Q.sub(CO, 0), const(360)) if globe else (wv if wv is not None else None)
+                src = Q.sub(CO, 0) if globe else Q.sub(REG, 0)
+                diff, und = None, None
+                for cell in zones.CELLS:
+                    cls = (cell, cell, zones.pt(0))
+                    try:
+                        got_f = zones.ev(cs[0].data[2], {Q.sub(CO, 0): zones.Aff(1, 0, 0)}, cls)
+                        want_f = zones.ev(want_t, {src: zones.Aff(1, 0, 0)}, cls) if want_t is not None else None
+                    except zones.Refine as ex:
+                        und = str(ex)
+                        continue
+                    if want_f is not None and got_f.key() != want_f.key():
+                        diff = diff or "for a longitude in %s the bounds are mapped by x -> %s but the longitudes by x -> %s" % (zones.cell_name(cell), repr(want_f).replace("w", "x"), repr(got_f).replace("w", "x"))
+                ctx.add("R3", "%s|same-convention|%s" % (qn, tag), "VIOLATED" if diff else "UNDECIDED", diff or und or str(e), fn=qn)
                 continue
         if globe and "lon" in forms:
             want = sp.fn("mod", x, Builder(sp).nf(const(360)))
